@@ -316,7 +316,7 @@ func (c vzCompressor) Compress(w io.Writer) (io.WriteCloser, error) {
 	return &vzWriter{name: c.name, w: w}, nil
 }
 func (c vzCompressor) Decompress(r io.Reader) (io.Reader, error) { return newVZReader(c.name, r), nil }
-func (c vzCompressor) Name() string                             { return c.name }
+func (c vzCompressor) Name() string                              { return c.name }
 
 func init() {
 	encoding.RegisterCompressor(vzCompressor{VZA})
